@@ -157,7 +157,7 @@ def teardown(ctx):
 
 
 def plan(tier):
-    m = 1 if tier == 'quick' else 12
+    m = 1 if tier == 'quick' else 40
     return [('obs', 270 * m), ('list', 180 * m), ('array', 210 * m), ('corr1', 180 * m), ('corrN', 100 * m), ('multi', 90 * m),
             ('dict', 140 * m), ('frame', 120 * m), ('pickle', 110 * m), ('rew', 70 * m), ('edge', 30 * m), ('history', 80 * m), ('alias', 70 * m)]
 
